@@ -196,7 +196,7 @@ pub fn spec(prop: &str) -> Option<PropSpec> {
             adversarial: true,
             uses_reference: false,
             check: Box::new(|_, _, out, _| check_c12(out)),
-            rule: "same state space and answer-script exploration as C01 (every execution runs under catch_unwind), including duplicate keys / duplicated tags / non-canonical and non-finite numbers through the second value source; plus documents nested as deep as serde_json accepts (127 containers) into the recursive catalogue types and serde_json::Value, each run in a child process so that a stack overflow is attributed to its input. Oracle: the call returns.",
+            rule: "same state space and answer-script exploration as C01 (every execution runs under catch_unwind), including duplicate keys / duplicated tags / non-canonical and non-finite numbers through the second value source; plus documents nested as deep as serde_json accepts (127 containers) into the recursive catalogue types and serde_json::Value, each run in a child process so that a stack overflow is attributed to its input. Finally every base payload of every type usable with the built-in error types, extended with long non-ASCII unknown keys at every object and long / control-character strings at every string leaf, is run with JsonError and QueryParamError (their message rendering runs inside deserialize). Oracle: the call returns.",
         },
         "C03" => PropSpec {
             id: "C03",
@@ -360,6 +360,7 @@ pub fn run_catalogue(e: &Engine, prop: &str) -> i32 {
     );
     if sp.id == "C12" {
         crate::deep::run_deep(e, &rec);
+        crate::deep::run_builtin_totality(e, &rec);
     }
     if sp.id == "C09" {
         crate::invariance::run_extras(e, &rec);
